@@ -98,6 +98,10 @@ func (p *Proof) Verify(public Public, hash *hash.Hash) bool {
 	if p == nil {
 		return false
 	}
+	if p.Comm.P == nil || p.Comm.Q == nil || p.Comm.A == nil || p.Comm.B == nil || p.Comm.T == nil ||
+		p.Sigma == nil || p.Z1 == nil || p.Z2 == nil || p.W1 == nil || p.W2 == nil || p.V == nil {
+		return false
+	}
 
 	e, err := challenge(hash, public, p.Comm)
 	if err != nil {
